@@ -41,7 +41,7 @@ def _run_worker(mod, fn, timeout, twin, tier):
     try:
         p = subprocess.run(cmd, cwd=ROOT, env=env, capture_output=True, text=True, timeout=timeout * 2 + 120)
     except subprocess.TimeoutExpired:
-        return {"error": "worker wall timeout", "wall_s": time.time() - t0, "conditions": []}
+        return {"timeout_wall": True, "wall_s": time.time() - t0, "conditions": [{"messages": [{"state": "CANNOT_CONFIRM", "message": "worker exceeded its wall-clock limit (a single path outlived the per-condition budget)"}], "paths": 0}]}
     for line in p.stdout.splitlines():
         if line.startswith("@@XH@@"):
             d = json.loads(line[6:])
